@@ -925,6 +925,57 @@ pub fn command_line(rng: &mut Rng) -> String {
     l
 }
 
+/// alphabet of the bounded-exhaustive part: every editing key of the property's quantifier plus one
+/// narrow, one two-byte and one double-width character
+const ENUM_KEYS: [&str; 14] = ["a", "é", "漢", "Enter", "Tab", "BackTab", "Left", "Right", "Up", "Down", "Home", "End", "Backspace", "Delete"];
+const ENUM_STARTS: u64 = 4;
+
+fn enum_len(tier: Tier) -> u32 {
+    match tier {
+        Tier::Quick => 3,
+        Tier::Thorough => 5,
+    }
+}
+fn enum_count(tier: Tier) -> u64 {
+    ENUM_STARTS * (ENUM_KEYS.len() as u64).pow(enum_len(tier))
+}
+/// the idx-th session of the bounded-exhaustive part: one of four editor start states followed by
+/// every sequence of `len` keys over ENUM_KEYS (all shorter sequences are prefixes; a frame is
+/// drawn and checked after every key)
+fn enum_scn(idx: u64, len: u32) -> Scn {
+    let start = idx % ENUM_STARTS;
+    let mut k = idx / ENUM_STARTS;
+    let mut events: Vec<Ev> = vec![];
+    let (w, h) = if start < 2 { (100, 40) } else { (76, 28) };
+    match start {
+        0 => {}
+        1 => {
+            events.push(Ev::Line("FC = 1".into()));
+            events.push(Ev::Line("show memory".into()));
+            events.push(Ev::Char('F'));
+            events.push(Ev::Char('C'));
+        }
+        2 => {
+            for c in "load pro".chars() {
+                events.push(Ev::Char(c));
+            }
+        }
+        _ => {
+            events.push(Ev::Line("unset J1".into()));
+            for c in "ä漢b".chars() {
+                events.push(Ev::Char(c));
+            }
+            events.push(Ev::Key("Left".into()));
+        }
+    }
+    for _ in 0..len {
+        let key = ENUM_KEYS[(k % ENUM_KEYS.len() as u64) as usize];
+        k /= ENUM_KEYS.len() as u64;
+        events.push(if key.chars().count() == 1 { Ev::Char(key.chars().next().unwrap()) } else { Ev::Key(key.to_string()) });
+    }
+    Scn { w, h, preload: start == 1, autorun: 0, events, init: [0; 6] }
+}
+
 fn random_size(rng: &mut Rng) -> (u16, u16) {
     let w = match rng.below(8) {
         0 => 75,
@@ -952,11 +1003,14 @@ impl Check for C17 {
     }
     fn runs(&self, tier: Tier) -> u64 {
         match tier {
-            Tier::Quick => 12_000,
-            Tier::Thorough => 600_000,
+            Tier::Quick => 12_000 + enum_count(tier),
+            Tier::Thorough => 600_000 + enum_count(tier),
         }
     }
-    fn generate(&self, rng: &mut Rng, _tier: Tier, _idx: u64) -> Scn {
+    fn generate(&self, rng: &mut Rng, tier: Tier, idx: u64) -> Scn {
+        if idx < enum_count(tier) {
+            return enum_scn(idx, enum_len(tier));
+        }
         let (w, h) = if rng.chance(2, 3) { (100, 40) } else { random_size(rng) };
         let span = if rng.chance(1, 4) { 200 } else { 40 };
         let n = 1 + rng.usize(span);
@@ -1092,7 +1146,7 @@ impl Check for C17 {
         out
     }
     fn rule(&self) -> String {
-        "Sessions of 1-200 scripted terminal events from a swarm-chosen alphabet: printable ASCII, command-word fragments, complete generated command lines (every documented form with random case, spacing, radix, values around 255/256/0x100/0b100000000, malformed tokens, trailing junk, load targets incl. missing file / directory / non-UTF-8 / syntax error), multi-byte characters, Enter, Tab/BackTab (file-name completion against a sandbox directory), arrows, Home/End, Backspace/Delete, the CTRL chords, unknown key codes, mouse and resize events, terminal resizes between frames over 1x1..250x100 with emphasis on the 75/76 x 27/28 guard edges, auto-run budgets up to one frame's worth. One frame per event: maintain, handle_event, draw. distinct = distinct (abstract editor state, event kind) transitions.".into()
+        "First a bounded-exhaustive part: every sequence of 3 (quick) / 5 (thorough) editing keys over a 14-key alphabet from four editor start states. Then sessions of 1-200 scripted terminal events from a swarm-chosen alphabet: printable ASCII, command-word fragments, complete generated command lines (every documented form with random case, spacing, radix, values around 255/256/0x100/0b100000000, malformed tokens, trailing junk, load targets incl. missing file / directory / non-UTF-8 / syntax error), multi-byte characters, Enter, Tab/BackTab (file-name completion against a sandbox directory), arrows, Home/End, Backspace/Delete, the CTRL chords, unknown key codes, mouse and resize events, terminal resizes between frames over 1x1..250x100 with emphasis on the 75/76 x 27/28 guard edges, auto-run budgets up to one frame's worth. One frame per event: maintain, handle_event, draw. distinct = distinct (abstract editor state, event kind) transitions.".into()
     }
     fn assumptions(&self) -> Vec<String> {
         vec![
@@ -1109,6 +1163,9 @@ impl Check for C17 {
             "Tui::run loop shell, thread::sleep, Instant": "stub (verif_frame hook)",
             "file system": "real files in a fixed sandbox directory under /verif/sim/sandbox (current directory of the process)",
         })
+    }
+    fn exhaustive_dims(&self, tier: Tier) -> Vec<String> {
+        vec![format!("every sequence of {} keys over {{a, é, 漢, Enter, Tab, BackTab, Left, Right, Up, Down, Home, End, Backspace, Delete}} from each of 4 editor start states (empty; history + partial command; partial `load` path at 76x28; multi-byte text with the cursor inside, at 76x28)", enum_len(tier))]
     }
     fn must_fire(&self, _tier: Tier) -> Vec<String> {
         ["KEY-ASCII", "KEY-MULTIBYTE", "KEY-CTRL", "KEY-EDIT", "KEY-UNKNOWN", "MOUSE", "RESIZE", "command-executed", "command-rejected", "load-succeeded", "load-file-fault", "enter-on-empty-line=clock"].iter().map(|s| s.to_string()).collect()
